@@ -45,8 +45,35 @@ def check_density(ctx, arch, inp, where="core.AdaptiveGridArchive.add"):
     return True
 
 
+def burst_history(rng):
+    """a front between two extreme points that pin the grid, some of its members clustered in one cell, others alone in theirs, then
+    one newcomer *inside* the grid that dominates several of them at once (the grid is not re-adapted for the newcomer itself; what
+    happens to the cells of the members that leave is the point), then a few more offers"""
+    V = rng.choice([12, 30, 120])
+    capacity, divisions = rng.randrange(5, 11), rng.randrange(2, 5)
+    mid = []
+    for _ in range(rng.randrange(2, 7)):
+        a = rng.randrange(V // 3, 2 * V // 3 + 1)
+        mid.append([float(a), float(V + rng.randrange(V // 6, V // 3 + 1) - a)])
+    rng.shuffle(mid)
+    pts = [[0.0, float(V)], [float(V), 0.0]] + mid
+    if rng.random() < 0.5:
+        rng.shuffle(pts)
+    lo = [min(q[0] for q in mid), min(q[1] for q in mid)]
+    pts.append([float(max(1, int(lo[0]) - rng.randrange(0, 3) + rng.randrange(0, V // 6 + 1))), float(max(1, int(lo[1]) - rng.randrange(0, 3) + rng.randrange(0, V // 6 + 1)))])
+    for _ in range(rng.randrange(0, 4)):
+        pts.append([float(rng.randrange(0, V + 1)), float(rng.randrange(0, V + 1))])
+    return capacity, divisions, pts
+
+
 def run_history(ctx, ask, rng, exhaustive_objs=None, cfg=None):
-    if cfg is None:
+    if cfg == "burst":
+        n, dirs, constrained = 2, (False, False), False
+        capacity, divisions, objs_ = burst_history(rng)
+        p = mk_problem(n, dirs, constrained)
+        sols = [mk_sol(p, o, 0.0) for o in objs_]
+        ctx.count("burst_histories")
+    elif cfg is None:
         n = rng.randrange(2, 4)
         dirs = tuple(rng.random() < 0.25 for _ in range(n))
         constrained = rng.random() < 0.15
@@ -172,6 +199,10 @@ def run(ctx, drv):
     nh = 1500 if ctx.quick() else 25000
     for _ in range(nh):
         run_history(ctx, ask, rng)
+    import random as _rnd
+    brng = _rnd.Random(ctx.seed * 7919 + 1414)        # its own generator: the streams above stay what they were
+    for _ in range(600 if ctx.quick() else 12000):
+        run_history(ctx, ask, brng, cfg="burst")
     L = 3 if ctx.quick() else 4
     pts = [(float(a), float(b)) for a in range(4) for b in range(4)]
     nex = 0
